@@ -127,6 +127,90 @@ def build_kd_grid_case(cls, prop="C01"):
     return Case("engine/%s/Build_mesh_kd" % cls, run, functions=["%s::Build_mesh_kd" % cls], conc=False, max_paths=3000)
 
 
+def build_kd_graph_case(cls, prop="C01"):
+    P = "%s/%s::Build_mesh_kd" % (prop, cls)
+
+    def run(api):
+        prog = _c11().program()
+        c = api.ctx
+        inv0 = dict(K.LOOP_INV)
+        I = K.make_interp(prog, c, prop, loop_inv=inv0)
+        o = K.valid_object(I, cls)
+        K.assume_content_invariants(I, o)
+        for fct in K.rows_match_counts(I, o):
+            c.assume(fct)
+        f = dict(o.fields)
+        S, M, E = f["n_species"], f["n_meshes"], f["n_env"]
+        i0, s0, n0 = K._int(I, "i0", 0), K._int(I, "s0", 0), K._int(I, "n0", 0)
+        cnt0 = z3.Select(f["mesh_neighbor_n"].arr, i0)
+        c.assume(z3.And(i0 < M, s0 < S, n0 < cnt0))
+        D = I.fresh_vec("D", "real", S * E)
+        env = f["mesh_env"].arr
+        j_ = z3.Int("j!env")
+        c.assume(z3.ForAll([j_], z3.Implies(z3.And(j_ >= 0, j_ < M), z3.And(z3.Select(env, j_) >= 0, z3.Select(env, j_) < E))))
+        j0 = z3.Select(z3.Select(f["mesh_neighbor_index"].arr, i0), n0)
+        vol = f["mesh_vol"].arr
+        from vc.core.proxies import root_fn
+        cbrt = root_fn(3)                       # pow(x, 1.0/3.0) is read as the ghost cube root (root^3 = x)
+        hi, hj = cbrt(z3.Select(vol, i0)), cbrt(z3.Select(vol, j0))
+        Di = z3.Select(D.arr, s0 * E + z3.Select(env, i0))
+        Dj = z3.Select(D.arr, s0 * E + z3.Select(env, j0))
+        Dij = z3.If(z3.And(Di != 0, Dj != 0), (hi + hj) / (hi / Di + hj / Dj), 0)
+        sfc = z3.Select(z3.Select(f["mesh_neighbor_sfc"].arr, i0), n0)
+        dst = z3.Select(z3.Select(f["mesh_neighbor_dst"].arr, i0), n0)
+        want_out = Dij * sfc / (z3.Select(vol, i0) * dst)
+        want_in = Dij * sfc / (z3.Select(vol, j0) * dst)
+        slot = s0 * cnt0 + n0
+
+        def L(fr, nm):
+            return I.local_by_name(fr, nm)
+
+        def entry(fr, nm):
+            return z3.Select(z3.Select(fr.this.fields[nm].arr, i0), slot)
+
+        def done(fr, level):
+            i = L(fr, "i")
+            s = L(fr, "s") if level >= 2 else z3.IntVal(0)
+            n = L(fr, "n") if level >= 3 else z3.IntVal(0)
+            return z3.Or(i > i0, z3.And(i == i0, z3.Or(s > s0, z3.And(s == s0, n > n0))))
+
+        def mk(level):
+            def inv(I_, fr, stage):
+                ff = fr.this.fields
+                out = [ff["mesh_kd_out"].n == M, ff["mesh_kd_in"].n == M,
+                       z3.Implies(done(fr, level), z3.And(entry(fr, "mesh_kd_out") == want_out, entry(fr, "mesh_kd_in") == want_in))]
+                if level >= 2:
+                    i = L(fr, "i")
+                    ln = S * z3.Select(ff["mesh_neighbor_n"].arr, i)
+                    out.append(z3.And(z3.Select(ff["mesh_kd_out"].lens, i) == ln, z3.Select(ff["mesh_kd_in"].lens, i) == ln))
+                return out
+            return inv
+        inv0.update({("Build_mesh_kd", 1): mk(1), ("Build_mesh_kd", 2): mk(2), ("Build_mesh_kd", 3): mk(3)})
+
+        def at_store(want, what):
+            # assert-then-assume at the store of the Skolem slot: the identity of rational functions is decided on the path
+            # where (i, s, n) = (i0, s0, n0) holds as hypotheses, and is then available to the loop invariant
+            def chk(I_, o_, fr, v, idx):
+                i, s_, n = L(fr, "i"), L(fr, "s"), L(fr, "n")
+                if i is None or s_ is None or n is None:
+                    return None
+                if c.branch(z3.And(i == i0, s_ == s0, n == n0)):
+                    c.oblige(P + "/store-of-the-%s-constant-of-the-chosen-slot" % what, v == want)
+                    c.assume(v == want)
+                return None
+            return chk
+        I.store_checks = dict(I.store_checks)
+        I.store_checks["mesh_kd_out"] = at_store(want_out, "outgoing")
+        I.store_checks["mesh_kd_in"] = at_store(want_in, "incoming")
+        fn, _ = prog.method(cls, "Build_mesh_kd")
+        I.call(fn, o, [D], fn, Frame("top"))
+        c.oblige(P + "/every-slot: outgoing constant = Dij x surface / (own volume x distance)", entry(Frame("x", o), "mesh_kd_out") == want_out)
+        c.oblige(P + "/every-slot: incoming constant = Dij x surface / (neighbour volume x distance)", entry(Frame("x", o), "mesh_kd_in") == want_in)
+
+    return Case("engine/%s/Build_mesh_kd" % cls, run, functions=["%s::Build_mesh_kd" % cls], conc=False, max_paths=3000,
+                thorough_only=True, note="about 6 minutes (feasibility queries over non-linear constants): thorough tier only")
+
+
 def reaction_rate_case(cls, prop="C01"):
     P = "%s/%s::ReactionRate" % (prop, cls)
 
@@ -169,4 +253,5 @@ def cases(prop="C01"):
         out.append(build_kr_case(cls, prop))
         out.append(reaction_rate_case(cls, prop))
     out.append(build_kd_grid_case("Euler3D", prop))
+    out.append(build_kd_graph_case("EulerGraph", prop))
     return out
